@@ -603,8 +603,10 @@ def one_case(cfg, workdir, tag, shared=None):
                 if cfg["resampling"] in (None, "nearest") and not ambiguous and not fails:
                     # (first level only: GDAL derives further levels from the previous overview, not from the base)
                     for l, op in list(zip(expect, ov_pix))[:1]:
-                        if op is None or l > 8 or h % l or w % l:
-                            continue  # partial source cells at the edge are GDAL's business, not judged
+                        if op is None or l not in (2, 4, 8) or h % l or w % l:
+                            # partial source cells at the edge and non-power-of-two decimations are GDAL's business (plain
+                            # rasterio build_overviews([3]) on a 3x3 / 9x9 image yields 0 / nodata cells by itself): not judged
+                            continue
                         oh, ow = op.shape[1:]
                         # source cell of overview pixel (i, j): rows floor(i*h/oh) .. +l, cols floor(j*w/ow) .. +l (clipped)
                         ry = (np.arange(oh) * h) // oh
